@@ -26,7 +26,7 @@ def handle (op : String) (a : Json) : Except String Json := do
     return valJ (Json.mkObj [("groups", groupsJ (group n adj)), ("calls", pairsJ (pairs n))])
   | "group_loop" =>
     -- the final loop of the code, literally (equal to `group` by theorem C13_loop)
-    return valJ (groupsJ (groupLoop (labels n adj) n))
+    return valJ (groupsJ (groupLoop (labelAt (labelList n adj)) n))
   | "holds" =>
     let out ← fld a "out"
     let gs ← (← fldArr out "groups").mapM getNatList
